@@ -250,6 +250,11 @@ class Program:
                 from .desugar import desugar
 
                 tree = desugar(ast.parse(src, filename=str(p)))
+                if any(isinstance(n, ast.ClassDef) and n.name.startswith("_") and not n.name.startswith("__") for n in tree.body):
+                    from .flatten import flatten_collaborators, flatten_local_instances
+
+                    flatten_collaborators(tree)
+                    flatten_local_instances(tree)
             except SyntaxError as err:
                 raise AnalysisError(f"cannot parse {p}: {err}") from err
             m = Module(
@@ -506,6 +511,11 @@ class Program:
                 rest = parts[i:]
                 if not rest:
                     return Def("module", m, m)
+                fm = getattr(m.tree, "_flatten_map", None)
+                if fm and rest[0] in fm and len(rest) >= 2:
+                    # a member of a collaborator class that was flattened into its owner (sa/flatten.py)
+                    owner, attr = fm[rest[0]]
+                    rest = [owner, f"{attr}__{rest[1]}"] + rest[2:]
                 d = self.resolve_name(m, rest[0])
                 for seg in rest[1:]:
                     if d is None:
@@ -682,8 +692,24 @@ class Program:
         self._protocol_impl = out
         return out
 
+    def _flat_name(self, full: str) -> str:
+        """`mod.C.m` -> `mod.O.<a>__m` for a collaborator class C flattened into O (sa/flatten.py)."""
+        fms = getattr(self, "_flat_maps", None)
+        if fms is None:
+            fms = self._flat_maps = {f"{mod.name}.{c}": (f"{mod.name}.{o}", a) for mod in self.modules.values() for c, (o, a) in (getattr(mod.tree, "_flatten_map", None) or {}).items()}
+        if not fms:
+            return full
+        for cfq, (ofq, a) in fms.items():
+            if full.startswith(cfq + "."):
+                rest = full[len(cfq) + 1 :]
+                head, _, tail = rest.partition(".")
+                return f"{ofq}.{a}__{head}" + (f".{tail}" if tail else "")
+        return full
+
     def call_fact(self, m: Module, node: ast.Call):
         fact = self._raw_call_fact(m, node)
+        if fact and fact[0] and getattr(self.origin(m, node).tree, "_flatten_map", None):
+            fact = ("|".join(self._flat_name(one) for one in fact[0].split("|")),) + tuple(fact[1:])
         if fact and fact[0] and fact[0].startswith("aiomysensors."):
             impl = self.protocol_impl()
             if impl:
@@ -1018,6 +1044,8 @@ class Folder:
             return v.value
         if isinstance(v, (set, frozenset)):
             return frozenset(self.plain(x) for x in v)
+        if isinstance(v, Rec):
+            return Rec(v._names, [self.plain(x) for x in v], v._cls)
         if isinstance(v, tuple):
             return tuple(self.plain(x) for x in v)
         if isinstance(v, list):
